@@ -37,7 +37,7 @@ ASSUMPTIONS = ['simulation kernel fidelity (DESIGN.md 4.3/4.5)',
 
 
 def plan(tier):
-    n, per = (16, 600) if tier == 'quick' else (16, 20000)
+    n, per = (16, 1000) if tier == 'quick' else (16, 20000)
     return [{'kind': 'admission', 'n': per} for _ in range(n)]
 
 
